@@ -43,6 +43,19 @@ Definition sdelete_all (l : list elem) (xs : list elem) : list elem :=
 (* arraytype.go:384 Any with the predicate `elem.Equals(x)` *)
 Definition sany_eq (l : list elem) (x : elem) : bool := existsb (fun e => aeq e x) l.
 
+(* arraytype.go:724 Unique (after fix: elements that cannot provide a hash key are compared by Equals with the kept
+   ones, an element that is not equal to itself - NaN, a Sensitive, a list that holds one - is never a duplicate; the
+   elements that have a key keep the map, and on them "same key" is Equals - C09_hash_key_equality_is_equals for the
+   universe of Model/Coll.v, the class table of the harness here): an element is kept exactly when it is equal to none
+   of the elements kept before it. *)
+Fixpoint sunique_from (kept l : list elem) : list elem :=
+  match l with
+  | [] => []
+  | v :: r => if existsb (fun w => aeq w v) kept then sunique_from kept r
+              else v :: sunique_from (kept ++ [v]) r
+  end.
+Definition sunique (l : list elem) : list elem := sunique_from [] l.
+
 Inductive sop :=
 | SLit (e : elem)                 (* types.WrapValues(...) / a value of the zoo *)
 | SDelete (r x : nat)
@@ -53,7 +66,8 @@ Inductive sop :=
 | SAddAll (r x : nat)             (* arraytype.go:364 *)
 | SAnyEq (r x : nat)
 | SEquals (r x : nat)             (* pool[r].Equals(pool[x]) *)
-| SLen (r : nat).
+| SLen (r : nat)
+| SUnique (r : nat).              (* arraytype.go:724 *)
 
 Inductive sout := OV (e : elem) | OB (b : bool) | ON (z : Z) | OErr.
 
@@ -79,6 +93,7 @@ Definition sstep (pool : list elem) (o : sop) : sout :=
   | SAnyEq r x => with_arr pool r (fun l => with_val pool x (fun e => OB (sany_eq l e)))
   | SEquals r x => with_val pool r (fun a => with_val pool x (fun b => OB (aeq a b)))
   | SLen r => with_arr pool r (fun l => ON (Z.of_nat (length l)))
+  | SUnique r => with_arr pool r (fun l => OV (EArr (sunique l)))
   end.
 
 (* every step appends its result to the pool (undef for a result that is no value) *)
